@@ -44,12 +44,13 @@ func auditBase() *idl.Program {
 		{Const: &idl.Const{Name: "LIMIT", Type: T("i32"), Value: idl.Int(10)}},
 		{Typedef: &idl.Typedef{Name: "Num", Type: T("i32")}},
 		{Typedef: &idl.Typedef{Name: "Nums", Type: List(T("Num"))}},
+		{Typedef: &idl.Typedef{Name: "Counts", Type: Map(T("string"), T("i32"))}},
 		{Enum: &idl.Enum{Name: "Color", Values: []*idl.EnumValue{{Name: "RED", Explicit: &one}, {Name: "GREEN", Explicit: &two}, {Name: "BLUE"}}}},
 		{Struct: &idl.Struct{Kind: "struct", Name: "Point", Fields: []*idl.Field{
 			fld(1, "x", "required", T("i32")), fld(2, "y", "default", T("Num")), fld(5, "label", "optional", T("string")),
 			fld(7, "tags", "default", List(T("string"))), fld(9, "grid", "default", Map(T("string"), List(T("i32")))), fld(12, "last", "default", T("Color"))}}},
 		{Struct: &idl.Struct{Kind: "struct", Name: "Holder", Fields: []*idl.Field{
-			fld(1, "p", "default", T("Point")), fld(2, "ps", "required", Map(T("Num"), T("Point"))), fld(3, "ids", "default", Set(T("base.id"))), fld(4, "n", "default", T("Nums"))}}},
+			fld(1, "p", "default", T("Point")), fld(2, "ps", "required", Map(T("Num"), T("Point"))), fld(3, "ids", "default", Set(T("base.id"))), fld(4, "n", "default", T("Nums")), fld(5, "counts", "optional", T("Counts"))}}},
 		{Struct: &idl.Struct{Kind: "union", Name: "Choice", Fields: []*idl.Field{fld(1, "num", "default", T("i64")), fld(2, "text", "default", T("string")), fld(3, "pt", "default", T("Point"))}}},
 		{Struct: &idl.Struct{Kind: "exception", Name: "Oops", Fields: []*idl.Field{fld(1, "why", "default", T("string")), fld(2, "code", "required", T("i32"))}}},
 		{Struct: &idl.Struct{Kind: "exception", Name: "Bad", Fields: []*idl.Field{fld(1, "msg", "default", T("string"))}}},
@@ -62,7 +63,7 @@ func auditBase() *idl.Program {
 			{Name: "fire", Oneway: true, Args: []*idl.Field{fld(1, "n", "default", T("i64"))}},
 			{Name: "list", Ret: List(T("base.Thing"))},
 		}}},
-		{Service: &idl.Service{Name: "Plain", Methods: []*idl.Method{{Name: "noop"}, {Name: "count", Ret: T("i32")}}}},
+		{Service: &idl.Service{Name: "Plain", Methods: []*idl.Method{{Name: "noop"}, {Name: "count", Ret: T("i32")}, {Name: "tally", Ret: T("Counts"), Args: []*idl.Field{fld(1, "n", "default", T("Nums"))}}}}},
 		{Scope: &idl.Scope{Name: "Events", Prefix: "foo.{user}.bar", Ops: []*idl.Op{{Name: "Created", Type: T("Point")}, {Name: "Holding", Type: T("Holder")}}}},
 		{Scope: &idl.Scope{Name: "Audit", Prefix: "", Ops: []*idl.Op{{Name: "Logged", Type: T("base.Thing")}}}},
 	}}
@@ -229,9 +230,75 @@ func fieldEdits(site string, kind string, fs []*idl.Field, get func(p *idl.Progr
 	return out
 }
 
+func cloneType(t *idl.Type) *idl.Type {
+	if t == nil {
+		return nil
+	}
+	return &idl.Type{Name: t.Name, Key: cloneType(t.Key), Val: cloneType(t.Val)}
+}
+
+// forEachType visits every type-use site of the main file (struct fields, method returns,
+// arguments, scope operations); f may replace the type.
+func forEachType(p *idl.Program, f func(pt **idl.Type)) {
+	for _, x := range p.Files[0].Decls {
+		switch {
+		case x.Struct != nil:
+			for _, fl := range x.Struct.Fields {
+				f(&fl.Type)
+			}
+		case x.Service != nil:
+			for _, m := range x.Service.Methods {
+				if m.Ret != nil {
+					f(&m.Ret)
+				}
+				for _, fl := range m.Args {
+					f(&fl.Type)
+				}
+			}
+		case x.Scope != nil:
+			for _, o := range x.Scope.Ops {
+				f(&o.Type)
+			}
+		}
+	}
+}
+
 func auditEdits(base *idl.Program) []edit {
 	var out []edit
 	out = append(out, edit{Name: "identical", Label: "compatible", Apply: func(p *idl.Program) {}})
+	// giving an unchanged inline container a typedef name changes nothing on the wire
+	{
+		n := 0
+		forEachType(base, func(pt **idl.Type) {
+			if !(*pt).IsContainer() {
+				return
+			}
+			idx, shape := n, (*pt).String()
+			n++
+			out = append(out, edit{Name: fmt.Sprintf("name-inline-container-%d-%s", idx, shape), Label: "compatible", Apply: func(p *idl.Program) {
+				k := 0
+				forEachType(p, func(q **idl.Type) {
+					if !(*q).IsContainer() {
+						return
+					}
+					if k == idx {
+						alias := fmt.Sprintf("Alias%d", idx)
+						td := &idl.Decl{Typedef: &idl.Typedef{Name: alias, Type: *q}}
+						*q = idl.T(alias)
+						// declare it next to the other typedefs
+						ds := p.Files[0].Decls
+						for i, x := range ds {
+							if x.Typedef != nil {
+								p.Files[0].Decls = append(append(append([]*idl.Decl{}, ds[:i]...), td), ds[i:]...)
+								break
+							}
+						}
+					}
+					k++
+				})
+			}})
+		})
+	}
 	for _, d := range base.Files[0].Decls {
 		d := d
 		switch {
@@ -321,6 +388,30 @@ func auditEdits(base *idl.Program) []edit {
 						fix(x.Typedef.Type)
 					}
 				}
+			}})
+		case d.Typedef != nil && d.Typedef.Type.IsContainer():
+			// a typedef whose target is a container: retarget the container or any element of it
+			// (every user of the name is retyped on the wire), and replace the name by its
+			// unchanged target everywhere (nothing changes on the wire)
+			tn := d.Typedef.Name
+			setTarget := func(p *idl.Program, t *idl.Type) {
+				for _, x := range p.Files[0].Decls {
+					if x.Typedef != nil && x.Typedef.Name == tn {
+						x.Typedef.Type = t
+					}
+				}
+			}
+			for ti, nt := range retypes(d.Typedef.Type) {
+				nt := nt
+				out = append(out, edit{Name: fmt.Sprintf("typedef %s/retarget-%d-%s", tn, ti, nt.String()), Label: "breaking", Apply: func(p *idl.Program) { setTarget(p, nt) }})
+			}
+			target := d.Typedef.Type
+			out = append(out, edit{Name: "typedef " + tn + "/inline-target-at-every-use", Label: "compatible", Apply: func(p *idl.Program) {
+				forEachType(p, func(pt **idl.Type) {
+					if (*pt).Name == tn {
+						*pt = cloneType(target)
+					}
+				})
 			}})
 		case d.Const != nil:
 			out = append(out, edit{Name: "const/value-changed", Label: "compatible", Apply: func(p *idl.Program) {
